@@ -7,7 +7,7 @@ patch=$(readlink -f "$1"); cid=$2; shift 2
 d=$(mktemp -d /tmp/tryseed.XXXXXX)
 git -C /repo archive HEAD | tar -x -C "$d"
 ( cd "$d" && git init -q . 2>/dev/null && git apply --whitespace=nowarn "$patch" ) || { echo "PATCH DOES NOT APPLY"; rm -rf "$d"; exit 2; }
-cd /verif && VERIF_REPO="$d" ./check "$cid" --no-proof "$@" 2>&1 | tail -6
+cd /verif && VERIF_REPO="$d" VERIF_OUT="$d/_out" VERIF_BUILD="$d/_build" ./check "$cid" --no-proof "$@" 2>&1 | tail -6
 rc=${PIPESTATUS[0]}
 rm -rf "$d"
 exit $rc
